@@ -82,7 +82,7 @@ class World:
     def edit(self):
         rng = self.rng
         files, dirs = self.files(), self.dirs()
-        op = rng.choice(['add', 'add', 'add', 'modify', 'touch', 'rename', 'delete', 'dup', 'mkdir', 'symlink', 'revive', 'chmod', 'nsmod', 'nsmod'])
+        op = rng.choice(['add', 'add', 'add', 'modify', 'touch', 'rename', 'delete', 'dup', 'mkdir', 'symlink', 'revive', 'chmod', 'nsmod', 'nsmod', 'swap'])
         try:
             if op == 'add' or not files:
                 d = rng.choice(dirs)
@@ -103,6 +103,17 @@ class World:
                     os.utime(p, ns=(t, t), follow_symlinks=False)
                 else:
                     self.fresh_mtime(p)
+            elif op == 'swap':
+                # another file is renamed over the path and carries exactly the old modification time (safe-save, `cp -p`,
+                # normalised timestamps): same device and mtime, new inode, new content
+                p = rng.choice(files)
+                st = os.lstat(p)
+                self.next_cid += 1
+                tmp = p + '.swap-tmp'
+                with open(tmp, 'wb') as f:
+                    f.write(content(self.next_cid, rng.choice(SIZES)))
+                os.utime(tmp, ns=(st.st_mtime_ns, st.st_mtime_ns))
+                os.rename(tmp, p)
             elif op == 'nsmod':
                 # rewritten in place: same inode, same size, mtime differing only in its sub-second part
                 p = rng.choice(files)
